@@ -109,6 +109,46 @@ func runLeakCase(c lkCase, bin, base string) map[string]interface{} {
 				ok = false
 				out["op_err"] = fmt.Sprint(err)
 			}
+		case "broker_h2p_reuse", "broker_p2h_reuse":
+			// the same brokered id used for several establishments, one after the other
+			for round := 0; round < 6; round++ {
+				tag := strconv.Itoa(int(id)) + "r" + strconv.Itoa(round)
+				var got string
+				var err error
+				if op == "broker_h2p_reuse" {
+					stub.Do(vp.Cmd{Op: "serve", ID: id, S: tag})
+					got, err = stub.Broker.DialWho(id)
+				} else {
+					stub.Broker.ServeWho(id, tag)
+					var r vp.Res
+					r, err = stub.Do(vp.Cmd{Op: "dial", ID: id})
+					got = r.S
+				}
+				if err != nil || got != tag {
+					// with several servers registered under one id either may answer under multiplexing; what
+					// matters here is what is left behind
+					out["op_note"] = fmt.Sprintf("reuse round %d: %v %q", round, err, got)
+				}
+				if mux {
+					time.Sleep(30 * time.Millisecond)
+				}
+			}
+		case "raw_accept_reuse":
+			// the host application accepts one id twice with the broker's raw Accept, serves on the listeners
+			// itself and never closes them (plain gRPC, no TLS: each listener has a socket file go-plugin created)
+			if gb, ok := stub.Broker.(vp.GRPCAPI); ok && wire == "grpc" && !mux && c.TLS == "" {
+				for round := 0; round < 2; round++ {
+					tag := strconv.Itoa(int(id)) + "x" + strconv.Itoa(round)
+					if err := gb.ServeWhoRaw(id, tag); err != nil {
+						ok = false
+						out["op_err"] = fmt.Sprint(err)
+						break
+					}
+					if r, err := stub.Do(vp.Cmd{Op: "dial", ID: id}); err != nil || r.S != tag {
+						out["op_note"] = fmt.Sprintf("raw round %d: %v %q", round, err, r.S)
+					}
+				}
+			}
 		case "unmatched_dials":
 			// the plugin dials one id twice at once, nobody ever accepts: both calls give up
 			var wg sync.WaitGroup
